@@ -3820,6 +3820,10 @@ class Device(utils.CompositeEventEmitter):
             )  # TODO: timeout
 
         def on_connection(connection):
+            # An incoming connection (we are the peripheral) that arrives while this
+            # outgoing connection is pending is not the one the caller asked for.
+            if connection.role != hci.Role.CENTRAL or pending_connection.done():
+                return
             pending_connection.set_result(connection)
 
         def on_connection_failure(error: core.ConnectionError):
